@@ -214,9 +214,90 @@ func boundContexts(q *Term) map[*Term][]string {
 	return r
 }
 
+type bshift struct {
+	ctx  string
+	part *Term
+}
+
+var bvShiftCache = map[*Term]map[*Term][]bshift{}
+
+// boundShifts: the quantifier indexes a RE-SLICED slice with its bound variable, i.e. the body
+// contains select(a, (off + lo) + b) with ground off, lo. A ground index off + c of the original
+// slice then matches at b := c - lo. Returned per bound variable: (context, lo) pairs.
+func boundShifts(q *Term) map[*Term][]bshift {
+	if r, ok := bvShiftCache[q]; ok {
+		return r
+	}
+	r := map[*Term][]bshift{}
+	isB := map[*Term]bool{}
+	for _, b := range q.Bound {
+		isB[b] = true
+	}
+	seen := map[*Term]bool{}
+	var rec func(t *Term)
+	rec = func(t *Term) {
+		if seen[t] {
+			return
+		}
+		seen[t] = true
+		if t.Op == "select" || t.Op == "store" {
+			idx := t.Args[1]
+			if m := markIn(idx); m != nil && idx.Op == "bvadd" && isB[unmark(m)] {
+				for _, o := range idx.Args {
+					if o == m || o.hasB {
+						continue
+					}
+					parts := o.Args
+					if o.Op != "bvadd" {
+						// lo + b with offset 0 (a freshly allocated slice): lo is anything but the
+						// offset variable of a slice header
+						if uo := unmark(o); uo.IsConst() || uo.Op == "var" && strings.Contains(uo.Name, ".off") {
+							continue
+						}
+						parts = []*Term{o}
+					}
+					for _, part := range parts {
+						if unmark(part).IsConst() {
+							continue
+						}
+						b := unmark(m)
+						sh := bshift{"sel:" + arrayBase(t.Args[0]), unmark(part)}
+						dup := false
+						for _, e := range r[b] {
+							if e == sh {
+								dup = true
+							}
+						}
+						if !dup {
+							r[b] = append(r[b], sh)
+						}
+					}
+				}
+			}
+		}
+		for _, a := range t.Args {
+			rec(a)
+		}
+	}
+	for _, x := range q.Args {
+		rec(x)
+	}
+	bvShiftCache[q] = r
+	return r
+}
+
 // candidatesFor lists the instantiation terms for bound variable b of quantifier q.
 func candidatesFor(q, b *Term, cands map[string]map[*Term]bool) []*Term {
 	set := map[*Term]bool{}
+	for _, sh := range boundShifts(q)[b] {
+		for _, src := range []string{b.Key + "|" + sh.ctx, b.Key + "|sk"} {
+			for c := range cands[src] {
+				if c.S == sh.part.S && c.Op != "bvsub" {
+					set[BVBin("bvsub", c, sh.part)] = true
+				}
+			}
+		}
+	}
 	ctxs := boundContexts(q)[b]
 	if len(ctxs) == 0 {
 		for c := range cands[b.Key+"|*"] {
